@@ -13,7 +13,7 @@ and ORDER BY a LIMIT k (TopK dynamic filter) are compared with the specification
 """
 import json
 from common import *
-from fexpr import render, OA7
+from fexpr import render, OA7, has_notin_or, NOTIN_KEY
 
 POOL = ["a", "ab", "b", "ba", "c"]
 SW = ["pushdown_filters", "reorder_filters", "enable_page_index", "pruning", "bloom_filter_on_read", "force_filter_selections", "schema_force_view_types"]
@@ -31,13 +31,16 @@ def known_key(v):
     if "Invalid offset in sparse column chunk data" in (v.get("error") or "") and cf.get("pushdown_filters") \
             and not cf.get("force_filter_selections") and not cf.get("predicate_cache_zero"):
         return "pushdown-row-filter:mask-selection-over-sparsely-fetched-pages:invalid-offset"
+    # the simplifier defect keeps rows (never loses them): full/proj report "missing []", limit/topk report extra rows / keys
+    if not v.get("error") and has_notin_or((v.get("case") or {}).get("filter")) and "missing [\"" not in v.get("message", ""):
+        return NOTIN_KEY
     return None
 
 
 def run(ctx):
     build("vfiles")
     if ctx.replay:
-        run_harness(ctx, "vfiles", ["c24", "--replay", ctx.replay, "--out", ctx.path("res.json")])
+        run_harness(ctx, "vfiles", ["c24", "--replay", os.path.abspath(ctx.replay), "--out", ctx.path("res.json")])
         res = json.load(open(ctx.path("res.json")))
         for v in res["violations"]:
             report_violation(ctx, v, key=known_key(v))
